@@ -1999,20 +1999,15 @@ class t2data(object):
 
         self.grid.rename_blocks(blockmap, fix_blocknames = False)
 
+        # rebuild incon and generator dictionaries (rather than renaming keys
+        # in place, which can lose items if the mapping swaps block names):
         if self.incon:
-            for k,v in blockmap.items():
-                if k in self.incon:
-                    inc = self.incon[k]
-                    del self.incon[k]
-                    self.incon[v] = inc
+            self.incon = dict([(blockmap[k] if k in blockmap else k, inc)
+                               for k, inc in self.incon.items()])
 
         for gen in self.generatorlist:
-            if gen.block in blockmap:
-                keys = (gen.block, gen.name)
-                del self.generator[keys]
-                gen.block = blockmap[gen.block]
-                newkeys = (gen.block, gen.name)
-                self.generator[newkeys] = gen
+            if gen.block in blockmap: gen.block = blockmap[gen.block]
+        self.generator = dict([((gen.block, gen.name), gen) for gen in self.generatorlist])
 
         if self.parameter['print_block'] in blockmap:
             self.parameter['print_block'] = blockmap[self.parameter['print_block']]
